@@ -162,10 +162,25 @@ func c12Robust(c *fw.Ctx, s1, s2 seg, a, b, cc, d geom.Coord, tr c12truth, locat
 		}()
 		c.Count("point_on_segment_asked_about_the_same_coordinates_first")
 	}
+	// one proper crossing in five: the caller's coordinate buffers are reused for
+	// something else between the call and the first look at the reported point (a
+	// proper crossing is a new point; it has no reason to depend on them any more)
+	reuse := tr.typ == lineintersection.PointIntersection && !tr.ptIsEnd && c.R.Chance(1, 5)
+	if reuse {
+		a, b, cc, d = append(geom.Coord{}, a...), append(geom.Coord{}, b...), append(geom.Coord{}, cc...), append(geom.Coord{}, d...)
+	}
 	if c.Guard("panic", func() {
 		res = lineintersector.LineIntersectsLine(lineintersector.RobustLineIntersector{}, a, b, cc, d)
 	}) {
 		return false
+	}
+	if reuse {
+		for _, co := range []geom.Coord{a, b, cc, d} {
+			for i := range co {
+				co[i] = co[i]*3 + 1000
+			}
+		}
+		c.Count("argument_buffers_reused_before_the_reported_point_is_read")
 	}
 	c.Eval(1)
 	if !c12NoHold && !holdAndRecheck(c, "c12-robust", "LineIntersectsLine result", func() string { return fmt.Sprint(res.Type(), res.Intersection()) }) {
